@@ -55,17 +55,18 @@ type Sched struct {
 	Livelock   bool
 	Log        []string
 
-	finished   chan struct{}
-	wg         sync.WaitGroup
-	maxAdv     int
-	advances   int
-	steps      int
-	maxSteps   int
-	logOn      bool
-	closed     map[uintptr]bool
-	switchCost int    // deviation cost of a non-default choice at a point where the running thread cannot continue
-	OnPoint    func() // invariant hook: called at every scheduling point, while every other thread is parked
-	seq        int
+	finished     chan struct{}
+	wg           sync.WaitGroup
+	maxAdv       int
+	advances     int
+	steps        int
+	maxSteps     int
+	logOn        bool
+	closed       map[uintptr]bool
+	switchCost   int    // deviation cost of a non-default choice at a point where the running thread cannot continue
+	unlockPoints bool   // Mutex.Unlock yields to the scheduler
+	OnPoint      func() // invariant hook: called at every scheduling point, while every other thread is parked
+	seq          int
 }
 
 // S is the scheduler of the execution in progress (one execution at a time per process).
